@@ -1319,6 +1319,72 @@ func propC07Ranges(c *Ctx) {
 					}
 				}
 			}
+			if !ok {
+				// … or the first pass is a search (slices.IndexFunc(list, outOfRange) >= 0 → error): the attach step
+				// is reached only when nothing was found, and the predicate is false only for numbers in range
+				for _, sf := range elementSearches(g) {
+					if debugOn() {
+						fmt.Printf("DEBUG search %s none=%d some=%d guarded=%v\n", sf.call, len(sf.none), len(sf.some), guardedByEdges(g, in, sf.none))
+					}
+					if len(sf.none) == 0 || !guardedByEdges(g, in, sf.none) {
+						continue
+					}
+					pred := sf.pred
+					isElemNum := func(v ssa.Value) bool {
+						f, base := loadedField(stripNum(v))
+						if f == nil || f.Name() != "BlockNum" {
+							if fv, isF := stripNum(v).(*ssa.Field); isF {
+								f, base = fieldOf(fv)
+							}
+						}
+						return f != nil && f.Name() == "BlockNum" && isParamOrCopy(base, pred, 0)
+					}
+					_, loOK := cmpEdges(pred, func(b *ssa.BinOp) bool { return b.Op == token.LSS && isElemNum(b.X) && is(b.Y, pStart) })
+					_, hiOK := cmpEdges(pred, func(b *ssa.BinOp) bool {
+						return (b.Op == token.GEQ || b.Op == token.GTR) && isElemNum(b.X) && isUpper(b.Y)
+					})
+					isLoCmp := func(v ssa.Value) bool {
+						b, isB := v.(*ssa.BinOp)
+						return isB && b.Op == token.LSS && isElemNum(b.X) && is(b.Y, pStart)
+					}
+					isHiCmp := func(v ssa.Value) bool {
+						b, isB := v.(*ssa.BinOp)
+						return isB && b.Op == token.GEQ && isElemNum(b.X) && isUpper(b.Y)
+					}
+					predOK := true
+					for _, r := range returnsOf(pred) {
+						for _, lf := range phiLeaves(returnValues(r)[0]) {
+							if k, isK := lf.Val.(*ssa.Const); isK && k.Value != nil && k.Value.String() == "true" {
+								continue // reports "out of range": stops the routine
+							}
+							behind := func(edges []Edge) bool {
+								if len(edges) == 0 {
+									return false
+								}
+								if lf.Pred != nil && lf.Phi != nil && edgeGuarded(pred, lf.Pred, lf.Phi.Block(), edges) {
+									return true
+								}
+								return guardedByEdges(pred, r, edges)
+							}
+							// a leaf that can be false: then the number is known to be in range
+							if !(isLoCmp(lf.Val) || behind(loOK)) || !(isHiCmp(lf.Val) || behind(hiOK)) {
+								predOK = false
+							}
+						}
+					}
+					if debugOn() {
+						fmt.Printf("DEBUG search predOK=%v loOK=%d hiOK=%d cols=%v list=%v\n", predOK, len(loOK), len(hiOK), loopCollections(in), sf.list)
+					}
+					if !predOK {
+						continue
+					}
+					for _, col := range loopCollections(in) {
+						if stripConv(col) == stripConv(sf.list) || sameVar(col, sf.list) {
+							ok = true
+						}
+					}
+				}
+			}
 			c.Check("R7.5", fmt.Sprintf("%s/range-test-before-attach#%d", fnName(fn), n), instrPos(in), ok, spec.attDesc+" happens only for block numbers tested against [start, start+limit]")
 		})
 	}
@@ -1354,7 +1420,7 @@ func propC07TraceReplyBlock(c *Ctx) {
 			switch {
 			case k == 1 && av == ssa.Value(pStart):
 				nStart++
-			case k == 1 && av != nil && isInduction(stripNum(av)):
+			case k == 1 && av != nil && (isInduction(stripNum(av)) || capturedCounter(av)):
 				nCount++
 			default:
 				return false
@@ -1460,6 +1526,99 @@ func propC07TraceReplyBlock(c *Ctx) {
 		}
 		good = true
 	})
+	if !good {
+		// the comparison as the predicate of a search over the reply: slices.IndexFunc(res.Result, other) >= 0 → error
+		for _, g := range reg.Funcs() {
+			for _, sf := range elementSearches(g) {
+				if lf, _ := loadedField(stripConv(sf.list)); lf == nil || lf.Name() != "Result" {
+					continue
+				}
+				pred := sf.pred
+				isElemNum := func(v ssa.Value) bool {
+					f, base := loadedField(stripNum(v))
+					if f == nil {
+						if fv, isF := stripNum(v).(*ssa.Field); isF {
+							f, base = fieldOf(fv)
+						}
+					}
+					return f != nil && f.Name() == "BlockNum" && isParamOrCopy(base, pred, 0)
+				}
+				isCmp := func(v ssa.Value) (eq bool, ok bool) {
+					b, isB := v.(*ssa.BinOp)
+					if !isB || (b.Op != token.NEQ && b.Op != token.EQL) {
+						return false, false
+					}
+					if (isElemNum(b.X) && isAsked(b.Y)) || (isElemNum(b.Y) && isAsked(b.X)) {
+						return b.Op == token.EQL, true
+					}
+					return false, false
+				}
+				// the predicate is false only for a trace of the asked block
+				var eqEdges []Edge
+				found := false
+				allInstrs(pred, func(in ssa.Instruction) {
+					if v, isV := in.(ssa.Value); isV {
+						if eq, ok := isCmp(v); ok {
+							found = true
+							t, f := boolEdges(v)
+							if eq {
+								eqEdges = append(eqEdges, t...)
+							} else {
+								eqEdges = append(eqEdges, f...)
+							}
+						}
+					}
+				})
+				if !found {
+					continue
+				}
+				predOK := true
+				for _, r := range returnsOf(pred) {
+					for _, lf := range phiLeaves(returnValues(r)[0]) {
+						if k, isK := lf.Val.(*ssa.Const); isK && k.Value != nil && k.Value.String() == "true" {
+							continue
+						}
+						if eq, ok := isCmp(lf.Val); ok && !eq {
+							continue // the answer is the comparison `!=` itself
+						}
+						if len(eqEdges) > 0 && ((lf.Pred != nil && lf.Phi != nil && edgeGuarded(pred, lf.Pred, lf.Phi.Block(), eqEdges)) || guardedByEdges(pred, r, eqEdges)) {
+							continue
+						}
+						predOK = false
+					}
+				}
+				if !predOK {
+					detail = "the search predicate can answer false for a trace of another block"
+					continue
+				}
+				// a hit is an error
+				armOK := len(sf.some) > 0
+				for _, e := range sf.some {
+					if arm, _ := errorArmLeaves(g, e, sf.none, nil); !arm {
+						armOK = false
+					}
+				}
+				if !armOK {
+					detail = "a reply for another block is not an error"
+					continue
+				}
+				// and the block is looked up only after the search found nothing
+				if lookup != nil {
+					at := lookup
+					for _, x := range reg.chain(lookup) {
+						if x.Parent() == g {
+							at = x
+						}
+					}
+					if at.Parent() != g || !guardedByEdges(g, at, sf.none) {
+						detail = "the block is looked up before the reply was compared with the asked block"
+						continue
+					}
+				}
+				good, detail = true, "every trace of the reply names the asked block (searched with a predicate)"
+			}
+		}
+	}
 	c.Check("R7.5", "(*jrpc2.Client).traces/reply-is-for-the-asked-block", fn.Pos(), good, detail)
 }
 
@@ -1631,4 +1790,18 @@ func typeOfField(f *types.Var) string {
 		}
 	}
 	return f.Name()
+}
+
+// isParamOrCopy: base (the struct a member is read from, or its address) is parameter i of h or the local
+// copy a by-value parameter is spilled to
+func isParamOrCopy(base ssa.Value, h *ssa.Function, i int) bool {
+	if paramRefOf(base, h) == i {
+		return true
+	}
+	if al, ok := stripConv(base).(*ssa.Alloc); ok {
+		if cvv := cellValue(al); cvv != nil {
+			return paramRefOf(cvv, h) == i
+		}
+	}
+	return false
 }
